@@ -398,8 +398,16 @@ def w_rec(rep, ex: Explorer, be: Backend):
                 continue
             elif key[0] == "empty" and isinstance(key[1], tuple) and key[1][:2] == ("setop", "&") and set(key[1][2:]) == {V, Fm}:
                 E = val  # "are there ties at all", asked in front of the tie loop
+            elif key[0] == "truthy" and isinstance(key[1], tuple) and key[1][:1] == ("acc",):
+                # a value a loop left behind (that of its last round) is consulted after the loop
+                rep.violation("W.decision", site, "every tie", "the answer of the recursion is consulted for every tie, inside the loop over the ties",
+                              extracted=f"the variable `{key[1][2]}` is consulted after the loop: only the tie handled last decides", required="a test per tie", function=site)
+                S = "reported"
+                break
             else:
                 raise AnalysisError(f"{site}: outcome depends on {key!r}")
+        if S == "reported":
+            continue
         if S is None:
             rep.violation("W.subset-test", site, "subset test", "the answer is decided without comparing the two families of minimal correction sets",
                           extracted="no comparison", required="∀y∈F ∃x∈V: x⊆y", function=site)
@@ -774,6 +782,11 @@ def lex_rec(rep, ex: Explorer, be: Backend):
                 tie = True
             elif key[0] in ("partfalse", "mcs-timeout"):
                 continue
+            elif key[0] == "truthy" and isinstance(key[1], tuple) and key[1][:1] == ("acc",):
+                rep.violation("LEX.cardinality", site, "every tie", "the answer of the recursion is consulted for every pair of tied sets, inside the loops over them",
+                              extracted=f"the variable `{key[1][2]}` is consulted after the loop: only the pair handled last decides", required="a test per pair", function=site)
+                facts = None
+                break
             else:
                 raise AnalysisError(f"{site}: outcome depends on {key!r}")
         if facts is None:
